@@ -249,6 +249,48 @@ fn const_j<'tcx>(
             }
         }
     }
+    // promoted constants inside generic items (closures count: their signature is a type
+    // parameter) cannot be evaluated here; read the promoted body instead: `&Enum::UnitVariant`
+    if !extra.iter().any(|(k, _)| *k == "pointee") {
+        if let Const::Unevaluated(uv, _) = c.const_ {
+            if let (Some(p), Some(ldef)) = (uv.promoted, uv.def.as_local()) {
+                let proms = tcx.promoted_mir(ldef.to_def_id());
+                if let Some(pb) = proms.get(p) {
+                    let mut found: Option<String> = None;
+                    let mut n_assign = 0;
+                    for bb in pb.basic_blocks.iter() {
+                        for st in &bb.statements {
+                            if let StatementKind::Assign(bx) = &st.kind {
+                                let (_pl, rv) = &**bx;
+                                match rv {
+                                    Rvalue::Aggregate(kind, fields) => {
+                                        n_assign += 1;
+                                        if let AggregateKind::Adt(did, vi, _, _, _) = &**kind {
+                                            if fields.is_empty() {
+                                                let adt = tcx.adt_def(*did);
+                                                found = Some(format!(
+                                                    "{}::{}",
+                                                    cx.path(*did),
+                                                    adt.variant(*vi).name
+                                                ));
+                                            }
+                                        }
+                                    }
+                                    Rvalue::Ref(..) => {}
+                                    _ => n_assign += 1,
+                                }
+                            }
+                        }
+                    }
+                    if n_assign == 1 {
+                        if let Some(f) = found {
+                            extra.push(("pointee", J::s(f)));
+                        }
+                    }
+                }
+            }
+        }
+    }
     if let Some(sd) = c.check_static_ptr(tcx) {
         extra.push(("static", J::s(cx.uid(sd))));
         extra.push(("static_name", J::s(cx.path(sd))));
